@@ -9,6 +9,8 @@ facts about conversions.py that are re-verified in the source on every run (anch
       unit whose dimension has total exponent <= 1.
   F3  _plan_conversion tries the direct path, then decomposes both sides, then pairs the remaining
       factors dimension by dimension with _find_path; whatever is left raises ConversionNotFound.
+  F4  _cancel_factors drops a left-over dimensionless factor (rad, sr) without a step: it is worth 1.  When the
+      source emits steps for it instead, a unit with such a factor needs a declared path from the factor to One.
 
 From these: if U is not decomposable (F2) then every plan pairs U itself, by a path (F1), with the
 target or with a unit assembled from the factors the *target side* can be decomposed into.  So U
@@ -83,9 +85,27 @@ def verify_anchors(prog: Program) -> List[str]:
     return out
 
 
+def sheds_dimensionless(prog: Program) -> bool:
+    """Anchor F4: in _cancel_factors a left-over factor whose dimension is its own inverse (a dimensionless unit: rad, sr,
+    a count) is dropped without a plan step - it is worth 1.  -> True when that is what the source does, False when the
+    branch emits steps for the factor (it then needs a declared path), AnalysisError when the branch is gone."""
+    cf = prog.func("conversions._cancel_factors")
+    inv_names = {t.id for n in ast.walk(cf.node) if isinstance(n, ast.Assign) for t in n.targets if isinstance(t, ast.Name)
+                 and isinstance(n.value, ast.BinOp) and isinstance(n.value.op, ast.Pow) and ast.unparse(n.value.right) in ("-1", "(-1)")}
+    for n in ast.walk(cf.node):
+        if isinstance(n, ast.If) and isinstance(n.test, ast.Compare) and len(n.test.ops) == 1 and isinstance(n.test.ops[0], (ast.Is, ast.Eq)):
+            sides = {ast.unparse(n.test.left), ast.unparse(n.test.comparators[0])}
+            if sides & inv_names and len(sides) == 2:
+                emits = any(isinstance(c, ast.Call) and isinstance(c.func, ast.Attribute) and c.func.attr in ("append", "extend", "insert")
+                            for st in n.body for c in ast.walk(st)) or any(isinstance(st, ast.AugAssign) for st in n.body)
+                return not emits
+    raise AnalysisError("conversions._cancel_factors no longer tests a dimension against its own inverse (anchor F4 of R09.3/R09.7 moved)")
+
+
 class PlannerReach:
-    def __init__(self, ev: Evaluator) -> None:
+    def __init__(self, ev: Evaluator, sheds: bool = True) -> None:
         self.ev = ev
+        self.sheds = sheds
         self.adj: Dict[int, Set[int]] = {}
         for e in ev.edges:
             self.adj.setdefault(e.a.uid, set()).add(e.b.uid)
@@ -164,6 +184,11 @@ class PlannerReach:
         names = sorted(repr(self.unit(x)) for x in comp if x != u.uid)[:4]
         return False, (f"it has no compound equivalence of its own to be decomposed through, and the declared paths from it reach only "
                        f"{names or 'nothing'}, none of which is the target or made of factors the target decomposes into")
+
+
+def dimensionless_factors(ev: Evaluator, u: UnitV) -> List[UnitV]:
+    one = ev.one().uid
+    return [ev.unit_by_id[k] for k in u.factors if k != one and not ev.unit_by_id[k].dimension.exps]
 
 
 def coherent_si(ev: Evaluator, u: UnitV) -> Optional[UnitV]:
